@@ -14,6 +14,7 @@ class Name:
         self.handed = []
         self.term = []
         self.cnt = 0
+        self.gaveup = 0
 
 
 class Sim:
@@ -23,6 +24,7 @@ class Sim:
         self.N = [Name() for _ in range(k)]
         self.held = False
         self.gated = []
+        self.fail = []
 
     def finish(self, x, r, node, cnt):
         x.handed = [(x.fid, r)] * x.waiters + x.handed
@@ -69,6 +71,28 @@ class Sim:
             else:
                 self.finish(x, (p if n in self.kids else x.node) + 1, x.node, x.cnt - 1)
             return True
+        if k == "Cancel":
+            if x.flight != "make" or x.waiters < 1:
+                return False
+            x.handed = [(x.fid, 0)] + x.handed
+            x.waiters -= 1
+            x.fid += 1
+            x.flight = "start" if x.waiters else None
+            return True
+        if k == "Abandon":
+            if x.flight is None or x.waiters < 2:
+                return False
+            x.waiters -= 1
+            x.gaveup += 1
+            return True
+        if k == "AddFail":
+            if not (isinstance(x.flight, tuple) and x.flight[0] == "counted") or x.node is not None:
+                return False
+            p = x.flight[1]
+            x.runs = [q for q in x.runs if q != p]
+            x.term = x.term + [p]
+            self.finish(x, 0, p, x.cnt)
+            return True
         if k == "Stop":
             p = l[2]
             if p not in x.runs:
@@ -94,7 +118,9 @@ class Sim:
         if x.flight == "make":
             return None if n in self.gated else ("Create", n)
         if isinstance(x.flight, tuple):
-            return ("Count", n) if x.flight[0] == "created" else ("Add", n)
+            if x.flight[0] == "created":
+                return ("Count", n)
+            return ("AddFail", n) if n in self.fail else ("Add", n)
         return None
 
     def quiesce(self):
@@ -111,6 +137,8 @@ class Sim:
                         break
             if l is None or not self.step(l):
                 return
+            if l[0] == "AddFail":
+                self.fail = [m for m in self.fail if m != l[1]]
 
     def drive(self, a):
         k = a[0]
@@ -132,6 +160,19 @@ class Sim:
             if x.node is None:
                 return 1
             self.step(("Stop", a[1], x.node))
+        elif k == "cancel":
+            n = a[1]
+            if n not in self.gated or not self.step(("Cancel", n)):
+                return 1
+            self.gated = [m for m in self.gated if m != n]
+        elif k == "call_deadline":
+            n = a[1]
+            if n not in self.gated:
+                return 1
+            self.step(("Call", n))
+            self.step(("Abandon", n))
+        elif k == "set_fail":
+            self.fail = [a[1]] + self.fail
         elif k == "hold_dw":
             self.held = True
         elif k == "release_dw":
@@ -143,8 +184,9 @@ class Sim:
         out = []
         for x in self.N:
             out.append([0 if x.node is None else x.node + 1, len(x.runs)])
-            out.append(sorted(r for (_, r) in x.handed))
-        out.append([max(0, sum(x.cnt for x in self.N))])
+            out.append(sorted([0] * x.gaveup + [r for (_, r) in x.handed]))
+        tot = sum(x.cnt for x in self.N)
+        out.append([4999 if tot < 0 else tot])
         return out
 
 
@@ -157,29 +199,52 @@ CORPUS = [
     (1, ["child"], [["call", 0, False], ["hold_dw"], ["stop", 0], ["call", 0, False], ["release_dw"], ["call", 0, False]], "respawn-before-reap-child"),
     # stop while a flight for the same name is blocked in PreStart (nothing registered yet)
     (1, ["spawn"], [["call", 0, True], ["stop", 0], ["release_pre", 0], ["stop", 0], ["call", 0, False]], "stop-during-flight"),
+    # the winner's own context is cancelled inside its PreStart: the coalesced waiters start ONE new flight
+    (1, ["spawn"], [["call", 0, True], ["call", 0, False], ["call", 0, False], ["call", 0, False], ["cancel", 0], ["call", 0, False]], "winner-cancelled"),
+    (2, ["child", "func"], [["call", 0, True], ["call", 0, False], ["call", 0, False], ["call", 1, True], ["call", 1, False], ["call", 1, False], ["cancel", 0], ["cancel", 1]], "winner-cancelled-child-func"),
+    # a waiter gives up (own deadline) while the flight is blocked; a later caller still joins that flight
+    (1, ["spawn"], [["call", 0, True], ["call_deadline", 0], ["call", 0, False], ["call", 0, False], ["release_pre", 0], ["call", 0, False]], "waiter-gives-up"),
+    (1, ["child"], [["call", 0, True], ["call", 0, False], ["call_deadline", 0], ["call", 0, False], ["release_pre", 0]], "waiter-gives-up-child"),
     # reap in time: respawn is clean
     (2, ["spawn", "child"], [["call", 0, False], ["call", 1, False], ["stop", 0], ["call", 0, False], ["stop", 1], ["stop", 0], ["call", 1, False]], "respawn-after-reap"),
 ]
 
 
+CORPUS_CLUSTER = [
+    # the registry publication of a coalesced flight fails after the tree insertion: rolled back, reaped, counted 0;
+    # the registry recovers and the name is spawned again
+    (1, [["set_fail", 0], ["call", 0, True], ["call", 0, False], ["call", 0, False], ["release_pre", 0], ["call", 0, False], ["stop", 0], ["call", 0, False]], "publication-fails"),
+    (2, [["call", 1, False], ["set_fail", 0], ["call", 0, False], ["call", 0, False], ["set_fail", 1], ["stop", 1], ["call", 1, False], ["call", 1, False]], "publication-fails-2"),
+]
+
+
 def gen_scenarios(ctx):
     rng = random.Random(ctx.seed * 7727 + 3)
-    n_sc = 300 if ctx.thorough else 36
+    n_sc = 300 if ctx.thorough else 44
     out = []
 
-    def build(k, kinds, script, tag):
+    def build(k, kinds, script, tag, cluster=False):
         sim = Sim(k, [n for n in range(k) if kinds[n] == "child"])
         acts, expect = [], []
         for a in script:
             sim.drive(a)
             acts.append(a)
             expect.append(sim.observe())
-        return {"k": k, "kinds": kinds, "actions": acts, "expect": expect, "tag": tag}
+        return {"k": k, "kinds": kinds, "actions": acts, "expect": expect, "tag": tag, "cluster": cluster}
     for k, kinds, script, tag in CORPUS:
         out.append(build(k, kinds, script, tag))
+    for k, script, tag in CORPUS_CLUSTER:
+        out.append(build(k, ["spawn"] * k, script, tag, True))
     while len(out) < n_sc:
         k = rng.choice([1, 2, 3])
-        kinds = [rng.choice(["spawn", "func", "child", "mixed"]) for _ in range(k)]
+        fl = rng.random()
+        # flavours: "dw" may hold the death watch (the family of the open finding); "ctx" cancels the
+        # winner's context / lets waiters give up; "cluster" makes registry publications fail
+        flavour = "dw" if fl < 0.45 else ("ctx" if fl < 0.8 else "cluster")
+        if flavour == "cluster":
+            kinds = ["spawn"] * k
+        else:
+            kinds = [rng.choice(["spawn", "func", "child", "mixed"]) for _ in range(k)]
         sim = Sim(k, [n for n in range(k) if kinds[n] == "child"])
         acts, expect = [], []
 
@@ -187,15 +252,24 @@ def gen_scenarios(ctx):
             sim.drive(a)
             acts.append(a)
             expect.append(sim.observe())
-        guarded = rng.random() < 0.6     # most scenarios keep the death watch running
+        guarded = flavour != "dw" or rng.random() < 0.6     # most scenarios keep the death watch running
         for _ in range(rng.choice([5, 9, 14])):
             r = rng.random()
             n = rng.randrange(k)
             if r < 0.45:
                 winner = sim.N[n].flight is None
-                do(["call", n, winner and rng.random() < 0.35])
+                do(["call", n, winner and rng.random() < (0.6 if flavour == "ctx" else 0.35)])
             elif r < 0.60 and sim.gated:
-                do(["release_pre", rng.choice(sim.gated)])
+                g = rng.choice(sim.gated)
+                r2 = rng.random()
+                if flavour == "ctx" and r2 < 0.35:
+                    do(["cancel", g])
+                elif flavour == "ctx" and r2 < 0.7:
+                    do(["call_deadline", g])
+                else:
+                    do(["release_pre", g])
+            elif r < 0.70 and flavour == "cluster" and sim.N[n].flight is None and n not in sim.fail:
+                do(["set_fail", n])
             elif r < 0.82:
                 do(["stop", n])
             elif r < 0.90 and not guarded and not sim.held:
@@ -210,7 +284,7 @@ def gen_scenarios(ctx):
             do(["release_pre", sim.gated[0]])
         if sim.held:
             do(["release_dw"])
-        out.append({"k": k, "kinds": kinds, "actions": acts, "expect": expect, "tag": "gen"})
+        out.append({"k": k, "kinds": kinds, "actions": acts, "expect": expect, "tag": "gen-" + flavour, "cluster": flavour == "cluster"})
     return out
 
 
@@ -222,4 +296,10 @@ def coq_action(a):
         return "DReleasePre %d" % a[1]
     if k == "stop":
         return "DStop %d" % a[1]
+    if k == "cancel":
+        return "DCancel %d" % a[1]
+    if k == "call_deadline":
+        return "DCallDeadline %d" % a[1]
+    if k == "set_fail":
+        return "DSetFail %d" % a[1]
     return {"hold_dw": "DHoldDW", "release_dw": "DReleaseDW"}[k]
